@@ -12,6 +12,9 @@ func (c *Conversation) generateNewDHKeyPair() error {
 func (c *Conversation) akeHasFinished() error {
 	c.keys.wipe()
 	c.keys = c.ake.keys
+	if c.msgState == encrypted {
+		c.ssid = c.ake.ssid
+	}
 	c.ake.wipe(false)
 
 	previousMsgState := c.msgState
